@@ -126,20 +126,23 @@ def encode_run(text, sp, variant):
                 params.append("%d;5;%d" % (base + 8, c.number))
             else:
                 params.append("%d;2;%d;%d;%d" % ((base + 8,) + tuple(c.triplet)))
-    pre = ""
-    if sp["link"]:
-        pre += "\x1b]8;;%s\x1b\\" % sp["link"]
+    link_open = "\x1b]8;;%s\x1b\\" % sp["link"] if sp["link"] else ""
+    link_close = "\x1b]8;;\x1b\\" if sp["link"] else ""
+    sgr = ""
     if params:
-        if variant % 3 == 0:
-            pre += "\x1b[" + ";".join(params) + "m"
-        else:
-            pre += "".join("\x1b[%sm" % p for p in params)
-    post = ""
-    if params:
-        post += "\x1b[0m" if variant % 2 else "\x1b[m"
-    if sp["link"]:
-        post += "\x1b]8;;\x1b\\"
-    return pre, text, post
+        sgr = "\x1b[" + ";".join(params) + "m" if variant % 3 == 0 else "".join("\x1b[%sm" % p for p in params)
+    reset = ("\x1b[0m" if variant % 2 else "\x1b[m") if params else ""
+    # how other programs nest the two kinds of sequence: styles switched on inside an open link, links closed before or after the reset, or a style that is
+    # left on after the link ends (the following text keeps it until something resets it)
+    if variant <= 5:
+        return link_open + sgr, text, reset + link_close
+    if variant == 6:
+        return link_open + sgr, text, link_close + reset
+    if variant == 7:
+        return sgr + link_open, text, link_close + reset
+    if variant == 8:
+        return link_open + sgr, text, link_close          # the style stays on
+    return sgr + link_open, text, reset                    # variant 9: the link stays open
 
 
 def run_text():
@@ -158,7 +161,7 @@ class Proxy(Part):
     budget = {"quick": (8, 1200), "thorough": (16, 10000)}
 
     def strategy(self, tier):
-        run = st.builds(lambda t, s, v: {"t": t, "s": s, "v": v}, run_text(), st.one_of(st.none(), st.none(), GS.style_spec(max_attrs=3), st.sampled_from(GS.PALETTE)), st.integers(0, 5))
+        run = st.builds(lambda t, s, v: {"t": t, "s": s, "v": v}, run_text(), st.one_of(st.none(), st.none(), GS.style_spec(max_attrs=3), st.sampled_from(GS.PALETTE)), st.one_of(st.integers(0, 5), st.integers(0, 9)))
         line = st.lists(run, min_size=0, max_size=4)
         # a very long line (no spaces, one run): longer than the console is wide, around the sizes at which buffers usually change behaviour
         long_len = st.one_of(st.integers(201, 420), st.sampled_from([1023, 1024, 1025, 4095, 4096, 4097, 8191, 8192, 8193, 8200, 16384, 16385, 20001]), st.integers(421, 9000))
